@@ -6,7 +6,7 @@ import NmVerif.Index.SelCommon
     `Index.normalizeAxis1 axis dim : Option Nat`    index::normalize_axis (single axis; only used as a validity test here)
     `Index.shapeRoll shape axes : Option Shape`     index::shape_roll   (Nothing iff some axis is outside [-dim, dim))
     `Index.normalizeRollIndex i n : Int`            the lambda `normalize_roll_index` (roll.hpp:118-128): ONE wrap only
-    `Index.indexRoll shape d shifts axes : List Int` index::roll with an axis list (a single axis is the one-element list)
+    `Index.indexRollU shape d shifts axes : Option Idx` index::roll with an axis list (a single axis is the one-element list)
     `Index.rollView src shift axis : Option IxView`        view::roll(a, shift, axis)    single int axis
     `Index.rollAxesView src shifts axes : Option IxView`   view::roll(a, shifts, axes)   axis list; `shifts` already
                                                             broadcast to `len axes` (normalize_roll_length)
@@ -37,22 +37,19 @@ def normalizeRollIndex (index : Int) (n : Nat) : Int :=
   else if (n : Int) ≤ index then index - (n : Int)
   else index
 
-/-- the loop over `(axis_i, shift_i)`; `res` starts as a copy of `d`; `none` = an `at` outside its container (UB) -/
-def indexRollLoop (shape : Shape) (d : Idx) : List Int → List Int → List Int → Option (List Int)
+/-- the loop over `(axis_i, shift_i)`; `res` starts as a copy of `d`; every step stores the (signed) wrapped index
+    into the unsigned result; `none` = an `at` outside its container (UB) -/
+def indexRollLoop (shape : Shape) (d : Idx) : List Int → List Int → Idx → Option Idx
   | [], _, res => some res
   | ax :: axes, sh :: shifts, res =>
       match atPy shape ax, atPy d ax with
-      | some n, some i => indexRollLoop shape d axes shifts (setPy res ax (normalizeRollIndex ((i : Int) - sh) n))
+      | some n, some i => indexRollLoop shape d axes shifts (setPy res ax (i2u (normalizeRollIndex ((i : Int) - sh) n)))
       | _, _ => none
   | _ :: _, [], _ => none
 
-/-- `index::roll(shape, d, shifts, axes)` as signed values (before the store into the unsigned result) -/
-def indexRoll (shape : Shape) (d : Idx) (shifts axes : List Int) : Option (List Int) :=
-  indexRollLoop shape d axes shifts (d.map Int.ofNat)
-
-/-- … stored into the `size_t` result container -/
+/-- `index::roll(shape, d, shifts, axes)` -/
 def indexRollU (shape : Shape) (d : Idx) (shifts axes : List Int) : Option Idx :=
-  (indexRoll shape d shifts axes).map (·.map u64)
+  indexRollLoop shape d axes shifts d
 
 /-- `view::roll(a, shifts, axes)` with an axis list (`shifts.length = axes.length` after `normalize_roll_length`).
     An `at` outside its container cannot happen once `shape_roll` accepted the axes and `len d = dim`;
